@@ -174,6 +174,24 @@ def is_not_none(test, name):
         and test.comparators[0].value is None
 
 
+def given_expr(test):
+    """a test on which of the keywords sigma / invvar the caller supplied:
+    `sigma is not None`, `invvar is None`, and / or / not of these  ->  Gallina over (sigma_given invvar_given : bool)"""
+    names = {'sigma': 'sigma_given', 'invvar': 'invvar_given'}
+    if isinstance(test, ast.Compare) and len(test.ops) == 1 and isinstance(test.left, ast.Name) and test.left.id in names \
+            and isinstance(test.comparators[0], ast.Constant) and test.comparators[0].value is None:
+        if isinstance(test.ops[0], ast.IsNot):
+            return names[test.left.id]
+        if isinstance(test.ops[0], ast.Is):
+            return '(negb %s)' % names[test.left.id]
+    if isinstance(test, ast.BoolOp):
+        op = ' && ' if isinstance(test.op, ast.And) else ' || '
+        return '(' + op.join(given_expr(v) for v in test.values) + ')'
+    if isinstance(test, ast.UnaryOp) and isinstance(test.op, ast.Not):
+        return '(negb %s)' % given_expr(test.operand)
+    raise Unrecognised('test on the supplied keywords not understood: ' + ast.unparse(test))
+
+
 def assign_of(st, name):
     if isinstance(st, ast.Assign) and len(st.targets) == 1 and is_name(st.targets[0], name):
         return st.value
@@ -208,6 +226,13 @@ def generate_reject(repo):
     d = assign_of(body[k0], 'diff')
     if not (isinstance(d, ast.BinOp) and isinstance(d.op, ast.Sub) and is_name(d.left, 'data') and is_name(d.right, 'model')):
         raise Unrecognised('diff is not data - model')
+    # the statement before `diff = ...`: `if sigma is None and invvar is None:` estimates a sigma from the residuals --
+    # after it sigma is set whenever this guard held
+    est = body[k0 - 1] if k0 > 0 else None
+    if not (isinstance(est, ast.If) and not est.orelse and len(est.body) == 2 and isinstance(est.body[1], ast.If)
+            and all(assign_of(b_[0], 'sigma') is not None and len(b_) == 1 for b_ in (est.body[1].body, est.body[1].orelse))):
+        raise Unrecognised('`if <neither sigma nor invvar>: ... sigma = ...` expected before diff = data - model')
+    est_guard = given_expr(est.test)
     rest = body[k0 + 1:]
     z = assign_of(rest[0], 'badness')
     if not (isinstance(z, ast.Call) and isinstance(z.func, ast.Attribute) and z.func.attr == 'zeros'):
@@ -216,15 +241,20 @@ def generate_reject(repo):
            'From Coq Require Import ZArith QArith Qabs List Bool.', 'From PV Require Import C17.Base.',
            'Open Scope Q_scope.', '']
     env = {'diff': 'd', 'lower': 'l', 'upper': 'u', 'sigma': 's', 'invvar': 'iv', 'maxdev': 'x'}
+    out.append('(* source line %d: %s -- a sigma is estimated, so sigma is set afterwards *)' % (est.lineno, ast.unparse(est.test)))
+    out.append('Definition rej_estimates_sigma (sigma_given invvar_given : bool) : bool := %s.\n' % est_guard)
     pos = 1
     for lim, var in (('lower', 'l'), ('upper', 'u')):
         st = rest[pos]
         pos += 1
         if not (isinstance(st, ast.If) and is_not_none(st.test, lim) and not st.orelse is None
-                and len(st.body) == 1 and isinstance(st.body[0], ast.If) and is_not_none(st.body[0].test, 'sigma')
+                and len(st.body) == 1 and isinstance(st.body[0], ast.If) and st.body[0].orelse
                 and not st.orelse):
-            raise Unrecognised('`if %s is not None: if sigma is not None: ... else: ...` expected' % lim)
+            raise Unrecognised('`if %s is not None: if <sigma supplied>: ... else: ...` expected' % lim)
         inner = st.body[0]
+        # WHICH scaling the branch uses, as a function of the keywords the caller supplied (both may be given)
+        out.append('(* source line %d: %s *)' % (inner.lineno, ast.unparse(inner.test)))
+        out.append('Definition rej_%s_use_sigma (sigma_given invvar_given : bool) : bool := %s.\n' % (lim, given_expr(inner.test)))
         for tag, stmts, sc in (('sig', inner.body, 's'), ('iv', inner.orelse, 'iv')):
             qb, term = qbad_and_term(stmts, env)
             out.append('(* source line %d *)' % stmts[0].lineno)
@@ -308,9 +338,30 @@ def generate_reject(repo):
             raise Unrecognised('newmask[...] = 0 expected in the grow loop')
         out.append('Definition rej_grow_%s (p k n : Z) : Z := %s.   (* line %d *)' % (tag, zexpr(a.targets[0].slice, ie), a.lineno))
     out.append('')
+    mask_forms = []
+
+    def good_of(node, w):
+        """the right operand of `newmask & ...`: the mask itself (bitwise and: equals `mask is good` only for masks that
+        hold 0/1) or `mask != 0` / `np.asarray(mask) != 0` (any non-zero value is good, as documented)"""
+        if is_name(node, w):
+            mask_forms.append('bitwise')
+            return True
+        if isinstance(node, ast.Compare) and len(node.ops) == 1 and isinstance(node.ops[0], ast.NotEq) \
+                and isinstance(node.comparators[0], ast.Constant) and node.comparators[0].value == 0 \
+                and not isinstance(node.comparators[0].value, bool):
+            inner = node.left
+            aa = np_call(inner, 'asarray', 1)
+            if is_name(inner, w) or (aa is not None and is_name(aa[0], w)):
+                mask_forms.append('nonzero')
+                return True
+        return False
+
     fl = products(lambda s, w: (lambda v: isinstance(v, ast.BinOp) and isinstance(v.op, ast.BitAnd) and is_name(v.left, 'newmask')
-                                and is_name(v.right, w))(assign_of(s, 'newmask')), 'm',
+                                and good_of(v.right, w))(assign_of(s, 'newmask')), 'm',
                   lambda w: 'm && %s' % ('inm' if w == 'inmask' else 'outm'))
+    out.append('(* inm / outm below stand for "the mask entry marks a good point"; the source tests it as: %s *)' % ', '.join(mask_forms))
+    out.append('Definition rej_masks_by_truth : bool := %s.   (* false: bitwise and, right only for masks holding 0 / 1 *)\n'
+               % ('true' if mask_forms and all(f_ == 'nonzero' for f_ in mask_forms) else 'false'))
     out.append('Definition rej_final (m inm outm sticky : bool) : bool :=\n%s\n  m.\n' % '\n'.join(fl) if fl else
                'Definition rej_final (m inm outm sticky : bool) : bool := m.\n')
     qd = assign_of(rest[pos], 'qdone')
@@ -326,6 +377,18 @@ def generate_reject(repo):
         raise Unrecognised('qdone is not bool(np.all/any(a == b))')
     qe = {'newmask': 'newmask', 'outmask': 'outmask'}
     a, b = inner[0].left, inner[0].comparators[0]
+
+    def truth_of(node):
+        """`outmask != 0` / `np.asarray(outmask) != 0` stand for the mask read by truthiness (what the model's booleans are)"""
+        if isinstance(node, ast.Compare) and len(node.ops) == 1 and isinstance(node.ops[0], ast.NotEq) \
+                and isinstance(node.comparators[0], ast.Constant) and node.comparators[0].value == 0 \
+                and not isinstance(node.comparators[0].value, bool):
+            aa = np_call(node.left, 'asarray', 1)
+            inner_ = aa[0] if aa is not None else node.left
+            if is_name(inner_, 'outmask'):
+                return inner_
+        return node
+    a, b = truth_of(a), truth_of(b)
     if not (isinstance(a, ast.Name) and isinstance(b, ast.Name) and a.id in qe and b.id in qe):
         raise Unrecognised('qdone compares something else than newmask and outmask')
     out.append('(* source line %d *)' % rest[pos - 1].lineno)
